@@ -13,7 +13,8 @@ func init() {
 	register(&PropertySpec{
 		ID: "C05",
 		Explanation: "Structural necessary conditions of 'no bytes from the network can crash the application', decided for every function reachable (VTA call graph) from the decode entry points: R1 every bounds check the Go compiler's prove pass could not eliminate in that scope is discharged by a dominating length guard (guard-fact dataflow, one level of call-site preconditions), otherwise reported with the unguarded expression; " +
-			"R2 wire-derived integers reach make/reflect.MakeSlice/MakeMapWithSize only after a sign and size guard; R3 every explicit panic value reachable under parseFrame's recover implements error (the handler does r.(error)); R4 no explicit panic is reachable from a public decode entry point without passing a recover; R5 every consumer of a parsed frame has a non-panicking default branch; R6 the authenticator returned by Challenge is nil-checked before use; R7 type assertions on TypeInfo in the scope are comma-ok or dominated by the matching Type() test; R8 census of goroutine roots that parse network data.",
+			"R2 wire-derived integers reach make/reflect.MakeSlice/MakeMapWithSize only after a sign and size guard; R3 every explicit panic value reachable under parseFrame's recover implements error (the handler does r.(error)); R4 no explicit panic is reachable from a public decode entry point without passing a recover; R5 every consumer of a parsed frame has a non-panicking default branch; R6 the authenticator returned by Challenge is nil-checked before use; R7 type assertions on TypeInfo in the scope are comma-ok or dominated by the matching Type() test; R8 census of goroutine roots that parse network data." +
+			" R10 the header pointer readFrame installs on success is dereferenced only where that call's error is known nil.",
 		NotDecided: "runtime panics inside reflect/math/big/inf driven by the caller's destination values; memory proportionality after decompression; stack exhaustion by deep type recursion; sites outside the decode scope.",
 		Rules: []*Rule{
 			{ID: "C05.R1", Floor: 40, Doc: "compiler-unproven bounds checks in the decode scope are discharged by dominating guards", Run: c05r1},
